@@ -5,6 +5,7 @@ package shmipc
 import (
 	"errors"
 	"net"
+	"sync"
 )
 
 // C19 (listener half): the real newListener / listenLoop with its per-connection goroutine and its
@@ -247,4 +248,45 @@ func H_C19_listenwindow() {
 	}
 	vfAssert(len(ln.sessions) == 0, "C19.closed-listener-tracks-no-session")
 	vfCover("C19.listenwindow.end")
+}
+
+// C19 (full duplex): net.Conn allows Read and Write on one connection from different goroutines.
+// Over the session model: the server's adapter holds received data (one message of 4 bytes, or two),
+// then one Read (shorter than, exactly, or longer than what is buffered) and one Write (one slice,
+// several slices) run - each on the real code, one after the other, in either order - while the
+// engine records every Go-heap location they touch (conflicting-access check, engine/sym/race.go).
+// A location written by one of them and touched by the other without a common lock / atomic
+// access means that some interleaving inside the two calls changes the outcome.
+func H_C19_duplex() {
+	w := smSetup()
+	w.open()
+	var wgB sync.WaitGroup
+	wgB.Add(1)
+	msgs := vfShape("msgs", 1, 2)
+	for i := 0; i < msgs; i++ {
+		w.send(0, true, 4)
+	}
+	w.deliverAB()
+	vfAssert(w.b[0].stream != nil, "C19.stream-surfaces-at-the-server")
+	cb := newStreamWrapper(w.b[0].stream, nil, nil, &wgB)
+	rl := []int{2, 4, 6}[vfShape("rlen", 0, 2)]
+	wl := []int{1, 4, 9}[vfShape("wlen", 0, 2)]
+	p := make([]byte, rl)
+	q := vfBytes(wl)
+	first := vfShape("first", 0, 1)
+	for k := 0; k < 2; k++ {
+		if (k == 0) == (first == 0) {
+			vfRaceBegin(1)
+			n, err := cb.Read(p)
+			vfRaceEnd()
+			vfAssert(err == nil && n >= 1 && n <= rl, "C19.Read-returns-1..len(p)")
+		} else {
+			vfRaceBegin(2)
+			n, err := cb.Write(q)
+			vfRaceEnd()
+			vfAssert(err == nil && n == wl, "C19.Write-delivers-all-of-p")
+		}
+	}
+	vfRaceCheck("C19.read-and-write-share-no-unsynchronised-state")
+	vfCover("C19.duplex.end")
 }
